@@ -71,6 +71,13 @@ func ReadMultipartForm(r io.Reader, boundary string, size, maxInMemoryFileSize i
 	if err != nil {
 		return nil, fmt.Errorf("cannot read multipart/form-data body: %s", err)
 	}
+	// The form can end before the body does (RFC 2046 allows an epilogue after the closing
+	// delimiter). The rest of the declared size still belongs to this message: consume it, or
+	// it would be taken for the beginning of the next message on the connection.
+	if _, err = io.Copy(io.Discard, lr); err != nil {
+		f.RemoveAll() //nolint:errcheck
+		return nil, fmt.Errorf("cannot read multipart/form-data body: %s", err)
+	}
 	return f, nil
 }
 
